@@ -14,14 +14,20 @@ import vlib, starkgen, c01
 from vlib import log
 
 
-def mutation_sets(layer_counts, wd):
+def wire_key(sc):
+    """(trace segments, FRI layers, GKR proof present) of the proofs of a scenario"""
+    sh = sc["shape"]
+    return (2 if sh.get("aux_degs") else 1, sc["layers"], 1 if sh.get("lagrange") else 0)
+
+
+def mutation_sets(keys, wd):
     out = {}
     states = trans = 0
-    for L in sorted(layer_counts):
-        r = vlib.run_tlc("MC_Wire", "MC_Wire", workers=1, env={"WIRE_LAYERS": L}, tag="MC_Wire_%d" % L)
+    for L in sorted(keys):
+        r = vlib.run_tlc("MC_Wire", "MC_Wire", workers=1, env={"WIRE_SEGMENTS": L[0], "WIRE_LAYERS": L[1], "WIRE_GKR": L[2]}, tag="MC_Wire_%d_%d_%d" % L)
         if not r.ok:
             raise vlib.ToolError("Wire.tla grammar check failed: %s" % r.violation)
-        p = os.path.join(wd, "mutations_%d.ndjson" % L)
+        p = os.path.join(wd, "mutations_%d_%d_%d.ndjson" % L)
         vlib.write_ndjson(p, r.printed)
         out[L] = (p, len(r.printed) - 1)
         states += r.distinct
@@ -38,16 +44,19 @@ def run_mutations(pid, tier, seed, exe, wd):
     chosen = stmts[::step]
     # one statement with a single query over a small domain and no grinding: the colliding-nonce search applies to it
     small = [s for s in stmts if s["t"]["q"] == 1 and s["t"]["grind"] == 0 and s["t"]["ln"] + s["t"]["lb"] <= 6]
-    chosen = small[:1] + chosen
+    # statements with an auxiliary segment: one with and one without a Lagrange kernel column (GKR proof in the wire format)
+    aux_lag = [s for s in stmts if s["t"]["auxd"] and s["t"]["lag"] == 1]
+    aux_plain = [s for s in stmts if s["t"]["auxd"] and s["t"]["lag"] == 0]
+    chosen = small[:1] + aux_lag[:1 if tier == "quick" else 4] + aux_plain[:1 if tier == "quick" else 4] + chosen
     scs = [starkgen.scenario(rec, i, seed) for i, rec in enumerate(chosen)]
-    msets, st, tr = mutation_sets({sc["layers"] for sc in scs}, wd)
+    msets, st, tr = mutation_sets({wire_key(sc) for sc in scs}, wd)
     obs = []
     nbit = 2 if tier == "quick" else 8
     jobs = []
     for i, sc in enumerate(scs):
         p = os.path.join(wd, "sc_%d.ndjson" % i)
         vlib.write_ndjson(p, [sc])
-        args = ["stark", "mutate", "--scenarios", p, "--mutations", msets[sc["layers"]][0], "--byte-edits", "2000" if tier == "quick" else "20000", "--truncations"]
+        args = ["stark", "mutate", "--scenarios", p, "--mutations", msets[wire_key(sc)][0], "--byte-edits", "2000" if tier == "quick" else "20000", "--truncations"]
         if i < nbit and sc["shape"]["n"] <= 16:
             args.append("--bitflips")
         jobs.append((sc, p, args))
